@@ -192,47 +192,8 @@ theorem sub_missing_mount_is_add (a b r : Hardware) (h : a.sub b = .ok r) (μ : 
 theorem satisfies_iff (cap req : Hardware) (hc : ValidMap cap.storage) (hr : ValidMap req.storage) :
     cap.satisfies req = .ok true ↔
       req.cores ≤ cap.cores ∧ req.memory ≤ cap.memory ∧
-      ∀ μ ∈ mounts req.storage, μ ∈ mounts cap.storage ∧ mountTotal req.storage μ ≤ mountTotal cap.storage μ := by
-  obtain ⟨on, hon⟩ := normalizeStorage_ok req.storage ((ValidMap_iff _).mp hr)
-  obtain ⟨sn, hsn⟩ := normalizeStorage_ok cap.storage ((ValidMap_iff _).mp hc)
-  have hO := normalizeStorage_normal hon
-  have hS := normalizeStorage_normal hsn
-  unfold Hardware.satisfies coresMemoryOk
-  by_cases hcm : req.cores ≤ cap.cores ∧ req.memory ≤ cap.memory
-  · have : (decide (cap.cores ≥ req.cores) && decide (cap.memory ≥ req.memory)) = true := by simpa using hcm
-    simp only [this, if_true, hon, hsn, bind, Except.bind, pure, Except.pure]
-    by_cases hmiss : ((keys on).any (fun k => !(keys sn).contains k)) = true
-    · simp only [hmiss, if_true]
-      obtain ⟨μ, h1, h2⟩ := (any_missing_iff _ _).mp hmiss
-      constructor
-      · intro h; cases h
-      · rintro ⟨_, _, h⟩
-        exact absurd ((normalizeStorage_keys hsn μ).mpr (h μ ((normalizeStorage_keys hon μ).mp h1)).1) h2
-    · simp only [hmiss]
-      have hsub : ∀ μ ∈ keys on, μ ∈ keys sn := by
-        intro μ hμ
-        by_cases h : μ ∈ keys sn
-        · exact h
-        · exact absurd ((any_missing_iff _ _).mpr ⟨μ, hμ, h⟩) hmiss
-      simp only [Bool.false_eq_true, if_false, Except.ok.injEq, allDisksOk_totals hS hO hsub]
-      constructor
-      · intro h
-        refine ⟨hcm.1, hcm.2, fun μ hμ => ?_⟩
-        have hk := (normalizeStorage_keys hon μ).mpr hμ
-        refine ⟨(normalizeStorage_keys hsn μ).mp (hsub μ hk), ?_⟩
-        rw [← normalizeStorage_total hon, ← normalizeStorage_total hsn]; exact h μ hk
-      · rintro ⟨_, _, h⟩ μ hμ
-        rw [normalizeStorage_total hon, normalizeStorage_total hsn]
-        exact (h μ ((normalizeStorage_keys hon μ).mp hμ)).2
-  · have : (decide (cap.cores ≥ req.cores) && decide (cap.memory ≥ req.memory)) = false := by
-      simp only [ge_iff_le, Bool.and_eq_false_iff, decide_eq_false_iff_not]
-      by_cases h1 : req.cores ≤ cap.cores
-      · exact Or.inr (fun h2 => hcm ⟨h1, h2⟩)
-      · exact Or.inl h1
-    simp only [this, Bool.false_eq_true, if_false, pure, Except.pure]
-    constructor
-    · intro h; cases h
-    · rintro ⟨h1, h2, _⟩; exact absurd ⟨h1, h2⟩ hcm
+      ∀ μ ∈ mounts req.storage, μ ∈ mounts cap.storage ∧ mountTotal req.storage μ ≤ mountTotal cap.storage μ :=
+  satisfies_ok_true_iff cap req hc hr
 
 /-- **the raise branch**: `satisfies` raises exactly when cores and memory suffice and the requirement names a mount
     point the capacity lacks (never in any other case, on constructor-valid operands) -/
